@@ -519,6 +519,27 @@ def run_objects(desc):
                                            'problem': 'changing the lists returned by translate() changes what another call with the same arguments returns'},
                                           bucket=('translate-owned',))
     out.nontrivial(('translate-owned', ntr))
+    # a call that is refused (pattern limit) leaves nothing behind: the same text asked again with room to spare is answered as in a
+    # fresh interpreter that never saw the refused call
+    refused = 0
+    for d in REFUSAL_CASES:
+        try:
+            refusal_answers(d, d[2])
+        except Exception as e:
+            refused += type(e).__name__ == 'PatternLimitException'
+    here = [jsonable(refusal_answers(d, 1000)) for d in REFUSAL_CASES]
+    r = subprocess.run([sys.executable, '-c', REFUSAL_SCRIPT % {'verif': VERIF_DIR}], capture_output=True, text=True, timeout=600,
+                       env=dict(os.environ, VERIF_REPO=os.environ.get('VERIF_REPO', '/repo')))
+    if r.returncode != 0:
+        raise HarnessError('fresh interpreter (refusals) failed: ' + r.stderr[-500:])
+    there = json.loads([l for l in r.stdout.splitlines() if l.startswith('[')][-1])
+    for d, h, t in zip(REFUSAL_CASES, here, there):
+        out.evaluations += 1
+        if h != t:
+            out.violation({'call': list(d), 'after_refused_call': h, 'fresh_interpreter': t,
+                           'problem': 'after a call that was refused for the pattern limit, the same pattern is answered differently'}, bucket=('refusal',))
+    if refused:
+        out.nontrivial(('refusal', refused))
     out.sample({'kind': 'objects', 'matchers': len(ms), 'pairs': len(keys) * (len(keys) - 1) // 2, 'realpath_matchers': len(rms)})
     return out
 
@@ -546,6 +567,31 @@ def isolated(fn, items):
         os.waitpid(pid, 0)
         res.append(json.loads(data) if data else ['CHILD-EXC', 'no output', ''])
     return res
+
+
+# (kind, pattern, limit that refuses it)
+REFUSAL_CASES = [('fn', '{a|b,c|d,e|f}', 3), ('gl', '{a|b,c|d,e|f}', 3), ('fn', '{a,b}|{c,d}|e', 2), ('gl', 'x{1..4}|y|z', 5), ('fn', 'a|b|c|d', 2),
+                 ('gl', '{a,b,c}/{d|e}', 4), ('fn', '{p,q}{r|s,t}', 3)]
+
+
+def refusal_answers(d, limit):
+    kind, pat, _l = d
+    mod = F if kind == 'fn' else G
+    fl = mod.BRACE | mod.SPLIT
+    names = ['a', 'b', 'c', 'd', 'e', 'f', 'x1', 'x4', 'y', 'z', 'a/d', 'c/e', 'pr', 'qs', 'pt', 'qt', 'q']
+    one = mod.fnmatch if kind == 'fn' else mod.globmatch
+    return [[bool(one(n, pat, flags=fl, limit=limit)) for n in names], [list(x) for x in mod.translate(pat, flags=fl, limit=limit)],
+            (mod.filter if kind == 'fn' else mod.globfilter)(names, pat, flags=fl, limit=limit)]
+
+
+REFUSAL_SCRIPT = r'''
+import sys, json
+sys.path.insert(0, %(verif)r)
+from wcverif import bootstrap
+bootstrap()
+from wcverif.checks import c19
+print(json.dumps([c19.jsonable(c19.refusal_answers(d, 1000)) for d in c19.REFUSAL_CASES]))
+'''
 
 
 PICKLE_SCRIPT = r'''
